@@ -14,6 +14,8 @@ def chash(c):
 
     parts = [repr(sorted((k, repr(v)) for k, v in c.params.items())), repr(c.requires), repr(c.ensures), repr(sorted(c.raises.items(), key=str)),
              repr(sorted(c.loops.items(), key=str)), repr(sorted(c.lets.items())), repr(sorted((k, repr(v)) for k, v in c.defs.items()))]
+    if getattr(c, "hints", None):
+        parts.append(repr(sorted(c.hints.items())))
     return hashlib.sha256("|".join(parts).encode()).hexdigest()[:12]
 
 
@@ -40,7 +42,21 @@ def generate(c, registry):
     except Exception as e:  # e.g. a contract clause that no longer type-checks against the changed code (z3 sort mismatch)
         return dict(function=tid(c), hash=h, status="out-of-subset", engine_error=True, why=f"contract no longer type-checks against the function: {type(e).__name__}: {e}",
                     results=[], notes=eng.notes, seconds=time.time() - t0)
+    _add_derived_lemmas(c, eng)
     return dict(function=tid(c), hash=h, status="ok", eng=eng, notes=eng.notes, paths=eng.npaths, seconds=time.time() - t0)
+
+
+def _add_derived_lemmas(c, eng):
+    """Derived lemmas of a contract: facts about its SPEC FUNCTIONS that are used as axioms (with triggers) when the function's obligations are
+    discharged, and that are themselves PROVED on every run from the definitional axioms alone, in a minimal context (the solver finds such
+    proofs in milliseconds there and not at all inside a large query).  Each is an obligation `lemma[name]`."""
+    from .engine import Obligation
+
+    for mk in getattr(c, "derived_lemmas", []):
+        lem = mk()
+        ob = Obligation(f"lemma[{lem['name']}]", "post", list(lem["uses"]) + list(lem["premises"]), lem["goal"], 0, lem.get("text", lem["name"]))
+        ob.own_axioms = []
+        eng.obls.append(ob)
 
 
 def verify_many(contracts, registry, timeout_ms=10000):
@@ -55,7 +71,7 @@ def verify_many(contracts, registry, timeout_ms=10000):
         ax = g["eng"].axioms + seqs.all_axioms()
         for ob in g["eng"].obls:
             obls.append(ob)
-            axs.append(ax)
+            axs.append(getattr(ob, "own_axioms", ax))
             owner.append(gi)
     res = solve.discharge(axs, obls, timeout_ms) if obls else []
     # second chance for anything undecided: 5x budget (slow queries are the unstable ones; never read as violations)
